@@ -52,6 +52,10 @@ NOTE = ("Trusted: Coq 8.16.1 kernel, extraction with ExtrOcamlBasic only, OCaml 
         "(correspondence), not by proof. Print Assumptions of every theorem: closed under the global context.")
 
 
+# commits of /repo that add guarded hooks (git log --grep "verif hooks"); the fix c9f11f9 moved one guarded line
+HOOK_COMMITS = ["6c4e125", "2ca51a7", "f5b7dc7"]
+
+
 def main():
     old = json.load(open(os.path.join(VERIF, "MANIFEST.json")))
     checks = []
@@ -77,6 +81,7 @@ def main():
     allp = [json.loads(l)["id"] for l in open(os.path.join(VERIF, "properties.jsonl"))]
     old["not_applicable"] = [{"property_id": p, "reason": "check under construction in this framework (model/theorem/correspondence not yet registered); not claimed yet"}
                              for p in allp if p not in claimed]
+    old["hooks"]["source_commits"] = HOOK_COMMITS
     json.dump(old, open(os.path.join(VERIF, "MANIFEST.json"), "w"), indent=1)
     print("claimed:", claimed)
 
